@@ -1,5 +1,316 @@
 import GnpyModel.Scalar
-/- model file Verdict (see DESIGN.md §2) -/
-namespace Gnpy
+import GnpyModel.RoundHE
+/-
+C13 — feasibility verdict and automatic mode selection.
 
-end Gnpy
+Transliterates
+* gnpy/core/utils.py `snr_sum`
+* gnpy/core/elements.py `Transceiver._calc_snr / update_snr / _calc_penalty / calc_penalties`
+* gnpy/tools/json_io.py `Transceiver.__init__` (normalisation of the penalty tables)
+* gnpy/topology/request.py `propagate` (bookkeeping of the added-noise contributions),
+  `propagate_and_optimize_mode` (mode loop), `compute_path_with_disjunction` (verdict, both directions).
+
+The line propagation itself (what the receiver sees before tx / add-drop noise is added: the `raw_*`
+arrays, CD, PMD, PDL) is an *input* of this model (C01–C05 pin it).
+-/
+namespace Gnpy.Verdict
+open Gnpy.HE
+
+/-! ## numeric part (polymorphic: `Float` in the driver, `ℝ` in the theorems) -/
+section numeric
+variable {α : Type} [Add α] [Sub α] [Mul α] [Div α] [Neg α] [NatCast α] [LT α] [LE α]
+  [DecidableLT α] [DecidableLE α] [Transc α]
+
+/-- the literal `12.5e9` (0.1 nm reference bandwidth) -/
+def bwRef : α := ((12500000000:Nat) : α)
+
+/-- utils.snr_sum: `snr_added -= lin2db(bw/12.5e9); -lin2db(db2lin(-snr) + db2lin(-snr_added))` -/
+def snrSum (snr bw snrAdded : α) : α :=
+  let sa := snrAdded - lin2db (bw / bwRef);
+  -(lin2db (db2lin (-snr) + db2lin (-sa)))
+
+/-- `snr_added = 0; for s in args: if s is not None: snr_added += db2lin(-s)` -/
+def addStep (acc : α) (s : Option α) : α :=
+  match s with
+  | some v => acc + db2lin (-v)
+  | none => acc
+
+def addedLin (args : List (Option α)) : α := args.foldl addStep ((0:Nat) : α)
+
+/-- `snr_added = -lin2db(snr_added)` -/
+def snrAdded (args : List (Option α)) : α := -(lin2db (addedLin args))
+
+/-- one received channel: the line-only (`raw_*`) figures written by `_calc_snr`, and the figures in force -/
+structure Rx (α : Type) where
+  rawOsnrAse : α
+  rawOsnrAse01 : α
+  rawSnr : α
+  rawSnr01 : α
+  baud : α
+  osnrAse : α
+  osnrAse01 : α
+  snr : α
+  snr01 : α
+
+/-- `Transceiver._calc_snr` for one channel: figures in force := raw figures -/
+def calcSnr (rawOsnrAse rawOsnrAse01 rawSnr rawSnr01 baud : α) : Rx α :=
+  { rawOsnrAse, rawOsnrAse01, rawSnr, rawSnr01, baud,
+    osnrAse := rawOsnrAse, osnrAse01 := rawOsnrAse01, snr := rawSnr, snr01 := rawSnr01 }
+
+/-- `Transceiver.update_snr(*args)` for one channel: recomputed from the RAW values -/
+def updateSnr (r : Rx α) (args : List (Option α)) : Rx α :=
+  let a := snrAdded args
+  { r with
+    osnrAse := snrSum r.rawOsnrAse r.baud a
+    snr := snrSum r.rawSnr r.baud a
+    osnrAse01 := snrSum r.rawOsnrAse01 bwRef a
+    snr01 := snrSum r.rawSnr01 bwRef a }
+
+/-- any number of successive `update_snr` calls -/
+def updateSnrSeq (r : Rx α) (calls : List (List (Option α))) : Rx α := calls.foldl updateSnr r
+
+/-- a penalty in dB: finite or `inf` (numpy.interp with `left = right = inf`) -/
+inductive Pen (α : Type) where
+  | fin (v : α)
+  | inf
+
+/-- `numpy.interp(x, xp, fp, left=inf, right=inf)` on the zipped, ascending table, once `xp[0] ≤ x` is known:
+`j` = the largest index with `xp[j] ≤ x`; `xp[j] == x` (in particular the last point) returns `fp[j]`;
+beyond the last point `right`; else `slope*(x − xp[j]) + fp[j]`. -/
+def interpFrom (x : α) : List (α × α) → Pen α
+  | [] => .inf
+  | [(a, fa)] => if a < x then .inf else .fin fa
+  | (a, fa) :: (b, fb) :: rest =>
+    if x < b then
+      (if a < x then .fin ((fb - fa) / (b - a) * (x - a) + fa) else .fin fa)
+    else interpFrom x ((b, fb) :: rest)
+
+/-- `Transceiver._calc_penalty` -/
+def interpPenalty (x : α) (table : List (α × α)) : Pen α :=
+  match table with
+  | [] => .inf
+  | (a, _) :: _ => if x < a then .inf else interpFrom x table
+
+def Pen.add : Pen α → Pen α → Pen α
+  | .fin a, .fin b => .fin (a + b)
+  | _, _ => .inf
+
+/-- `total_penalty = sum(list(self.penalties.values()), axis=0)` for one channel (0 when no table) -/
+def totalPenalty (ps : List (Pen α)) : Pen α :=
+  match ps with
+  | [] => .fin ((0:Nat) : α)
+  | p :: rest => rest.foldl Pen.add p
+
+/-- `snr_01nm − total_penalty` for one channel; `none` = −∞ -/
+def metric (snr01 : α) (p : Pen α) : Option α :=
+  match p with
+  | .fin v => some (snr01 - v)
+  | .inf => none
+
+/-- `min` over the channels (Python `min`: first minimum); `none` = −∞ absorbs -/
+def minMetric : List (Option α) → Option α
+  | [] => none
+  | [m] => m
+  | m :: rest =>
+    match m, minMetric rest with
+    | some a, some b => if b < a then some b else some a
+    | _, _ => none
+
+/-- json_io.Transceiver `imp_penalties.sort(key=…)`: insertion for a stable ascending sort.  Used while folding the
+input from the back, so the inserted element came EARLIER than everything in the list and precedes equal keys. -/
+def insertAsc (e : α × α) : List (α × α) → List (α × α)
+  | [] => [e]
+  | y :: ys => if y.1 < e.1 then y :: insertAsc e ys else e :: y :: ys
+
+/-- stable ascending sort by impairment value -/
+def sortAsc (l : List (α × α)) : List (α × α) := l.foldr insertAsc []
+
+/-- penalty-table normalisation at load: if every boundary is `> 0` the point (0, 0) is put in front; then the
+list is sorted by boundary (stable) -/
+def normalise (entries : List (α × α)) : List (α × α) :=
+  let zero : α := ((0:Nat) : α)
+  let l := if entries.all (fun e => decide (zero < e.1)) then (zero, zero) :: entries else entries
+  sortAsc l
+
+end numeric
+
+section verdict
+variable {α : Type} [Add α] [Sub α] [Mul α] [Div α] [Neg α] [NatCast α] [LT α] [LE α]
+  [DecidableLT α] [DecidableLE α] [Rint α]
+
+/-- fixed-mode verdict of one direction: blocked iff `round(min(...), 2) < OSNR + margin`; −∞ is blocked -/
+def passFixed (m : Option α) (osnr margin : α) : Bool :=
+  match m with
+  | none => false
+  | some v => ! decide (round2 v < osnr + margin)
+
+/-- automatic mode selection accepts a mode iff `round(min(...), 2) > OSNR + margin` (strict) -/
+def passAuto (m : Option α) (osnr margin : α) : Bool :=
+  match m with
+  | none => false
+  | some v => decide (osnr + margin < round2 v)
+
+end verdict
+
+/-! ## discrete part: the mode loop -/
+
+/-- what the mode loop looks at.  Frequencies/rates are integer Hz, the equalisation offset an integer number of
+milli-dB (the generators emit such values; only the ORDER of offsets matters to the loop). -/
+structure Mode where
+  id : Nat
+  baud : Int
+  bitRate : Int
+  minSpacing : Int
+  offset : Int
+deriving DecidableEq, Repr
+
+/-- `float(mode['min_spacing']) <= req.spacing` -/
+def fits (spacing : Int) (m : Mode) : Bool := decide (m.minSpacing ≤ spacing)
+
+/-- lexicographic `>` on pairs (Python tuple comparison) -/
+def pairGt (a b : Int × Int) : Bool := decide (a.1 > b.1) || (decide (a.1 = b.1) && decide (a.2 > b.2))
+
+/-- insert in a strictly descending duplicate-free list -/
+def insertDesc (p : Int × Int) : List (Int × Int) → List (Int × Int)
+  | [] => [p]
+  | q :: qs => if pairGt p q then p :: q :: qs else if p = q then q :: qs else q :: insertDesc p qs
+
+/-- `sorted(set((baud, offset) for fitting modes), reverse=True)` -/
+def pairsDesc (modes : List Mode) (spacing : Int) : List (Int × Int) :=
+  (modes.filter (fits spacing)).foldl (fun acc m => insertDesc (m.baud, m.offset) acc) []
+
+/-- `sorted(set(baud for fitting modes), reverse=True)` (repaired loop) -/
+def baudsDesc (modes : List Mode) (spacing : Int) : List Int :=
+  ((modes.filter (fits spacing)).foldl (fun acc m => insertDesc (m.baud, 0) acc) []).map (·.1)
+
+/-- sort key `(bit_rate, equalization_offset_db)` -/
+def key (m : Mode) : Int × Int := (m.bitRate, m.offset)
+
+/-- insertion for `sorted(..., key=…, reverse=True)`: descending, stable (equal keys keep input order).
+Used while folding the input from the back, so the inserted element precedes equal keys. -/
+def insertKeyDesc (m : Mode) : List Mode → List Mode
+  | [] => [m]
+  | y :: ys => if pairGt (key y) (key m) then y :: insertKeyDesc m ys else m :: y :: ys
+
+def sortKeyDesc (l : List Mode) : List Mode := l.foldr insertKeyDesc []
+
+/-- `modes_to_explore` for one baud rate -/
+def modesOf (modes : List Mode) (spacing : Int) (baud : Int) : List Mode :=
+  sortKeyDesc (modes.filter (fun m => decide (m.baud = baud) && fits spacing m))
+
+/-- result of `propagate_and_optimize_mode`; `prop` = the (baud, offset) pair of the propagation that is left on
+the path (the receiver figures that get reported) -/
+inductive Outcome where
+  | served (m : Mode) (prop : Int × Int)
+  | noFeasibleMode (last : Mode) (prop : Int × Int)
+  | noBaud
+deriving DecidableEq, Repr
+
+/-- **the loop as it was before the fix of finding F9** (/repo 5d202380; kept as the counterexample witness): for every (baud, offset) pair, ALL fitting modes of that baud
+rate are judged, in key order, on the propagation made with that pair's offset; the first that passes is returned.
+`feas prop m` = "mode `m` passes on the propagation `prop`"; `last` = (`last_explored_mode`, propagation left on
+the path). -/
+def exploreOld (feas : (Int × Int) → Mode → Bool) (modes : List Mode) (spacing : Int) :
+    List (Int × Int) → Option (Mode × (Int × Int)) → Outcome
+  | [], none => .noBaud
+  | [], some (l, p) => .noFeasibleMode l p
+  | pr :: rest, last =>
+    let ms := modesOf modes spacing pr.1
+    match ms.find? (feas pr) with
+    | some m => .served m pr
+    | none => exploreOld feas modes spacing rest
+                (match ms.getLast? with | some l => some (l, pr) | none => last)
+
+def selectModeOld (feas : (Int × Int) → Mode → Bool) (modes : List Mode) (spacing : Int) : Outcome :=
+  exploreOld feas modes spacing (pairsDesc modes spacing) none
+
+/-- the propagation a mode must be judged on: its own baud rate and its own equalisation offset -/
+def own (m : Mode) : Int × Int := (m.baud, m.offset)
+
+/-- exploration order of the repaired loop: baud rates descending; within one baud rate by (bit rate, offset)
+descending -/
+def modeOrder (modes : List Mode) (spacing : Int) : List Mode :=
+  (baudsDesc modes spacing).flatMap (modesOf modes spacing)
+
+/-- **the repaired loop**: the first mode in `modeOrder` that passes on the propagation made with ITS OWN offset;
+if none passes, the last explored one is reported with its own propagation. -/
+def selectMode (feas : (Int × Int) → Mode → Bool) (modes : List Mode) (spacing : Int) : Outcome :=
+  let order := modeOrder modes spacing
+  match order.find? (fun m => feas (own m) m) with
+  | some m => .served m (own m)
+  | none =>
+    match order.getLast? with
+    | some l => .noFeasibleMode l (own l)
+    | none => .noBaud
+
+/-! ## request-level verdict (`compute_path_with_disjunction`) -/
+
+inductive Reason where
+  | none | modeNotFeasible | noFeasibleMode | noFeasibleBaudrateWithSpacing | noComputedSnr
+deriving DecidableEq, Repr
+
+def Reason.str : Reason → Option String
+  | .none => Option.none
+  | .modeNotFeasible => some "MODE_NOT_FEASIBLE"
+  | .noFeasibleMode => some "NO_FEASIBLE_MODE"
+  | .noFeasibleBaudrateWithSpacing => some "NO_FEASIBLE_BAUDRATE_WITH_SPACING"
+  | .noComputedSnr => some "NO_COMPUTED_SNR"
+
+/-- fixed mode: forward verdict, then (bidirectional) the reverse verdict; `hasattr(blocking_reason)` guards the
+second assignment -/
+def fixedReason (fwdPass : Bool) (bidir : Bool) (revPass : Bool) : Reason :=
+  if !fwdPass then .modeNotFeasible
+  else if bidir && !revPass then .modeNotFeasible
+  else .none
+
+/-- automatic mode: the loop's outcome, then the reverse direction with the retained mode (it is propagated for
+served AND for NO_FEASIBLE_MODE, but can only add a reason when none is set) -/
+def autoReason (o : Outcome) (bidir : Bool) (revPass : Bool) : Reason :=
+  match o with
+  | .noBaud => .noFeasibleBaudrateWithSpacing
+  | .noFeasibleMode _ _ => .noFeasibleMode
+  | .served _ _ => if bidir && !revPass then .modeNotFeasible else .none
+
+/-! ## request acceptance (json_io.requests_from_json -> trx_mode_params, _check_one_request) -/
+
+/-- which error a request document raises, if any: unknown transceiver type or unknown mode → EquipmentConfigError;
+a library mode whose baud rate exceeds its min_spacing → EquipmentConfigError; a requested spacing below the mode's
+min_spacing → ServiceError.  Without a mode (automatic selection) only the type is checked. -/
+def requestCheck (trxKnown : Bool) (modeGiven modeFound : Bool) (baud minSpacing spacing : Int) : Option String :=
+  if !trxKnown then some "EquipmentConfigError"
+  else if !modeGiven then none
+  else if !modeFound then some "EquipmentConfigError"
+  else if baud > minSpacing then some "EquipmentConfigError"
+  else if minSpacing > spacing then some "ServiceError"
+  else none
+
+/-! ## bookkeeping of the added-noise contributions -/
+
+/-- an element of a path, as far as `propagate` cares: a ROADM crossing with its `roadm-osnr` impairment
+(`none` for an express crossing / undefined impairment) or anything else -/
+inductive PathEl (α : Type) where
+  | roadm (osnr : Option α)
+  | other
+
+/-- `roadm_osnr` after the element loop: one entry per ROADM, in path order -/
+def roadmOsnr {α : Type} : List (PathEl α) → List (Option α)
+  | [] => []
+  | .roadm o :: rest => o :: roadmOsnr rest
+  | .other :: rest => roadmOsnr rest
+
+/-- `propagate`: `roadm_osnr.append(si.tx_osnr); path[-1].update_snr(*roadm_osnr)` -/
+def propagateArgs {α : Type} (path : List (PathEl α)) (txOsnr : α) : List (Option α) :=
+  roadmOsnr path ++ [some txOsnr]
+
+/-- one iteration of the mode loop on the list: `append(tx); update_snr(*roadm_osnr); del roadm_osnr[-1]`;
+returns (arguments given to update_snr, list afterwards) -/
+def loopStep {α : Type} (st : List (Option α)) (tx : α) : List (Option α) × List (Option α) :=
+  let st1 := st ++ [some tx]
+  (st1, st1.dropLast)
+
+/-- the argument lists of all iterations for successive modes' tx_osnr -/
+def loopArgs {α : Type} : List (Option α) → List α → List (List (Option α))
+  | _, [] => []
+  | st, tx :: txs => (loopStep st tx).1 :: loopArgs (loopStep st tx).2 txs
+
+end Gnpy.Verdict
